@@ -11,6 +11,7 @@ import subprocess
 FN_RE = re.compile(r"^fn (.+?)\((.*)\) -> (.+) \{$")
 FN_UNIT_RE = re.compile(r"^fn (.+?)\((.*)\) \{$")
 CONST_RE = re.compile(r"^const (.+): (.+?) = \{$")
+CONST1_RE = re.compile(r"^const (.+?): (.+?) = (const .+);$")
 LET_RE = re.compile(r"^    let (?:mut )?(_\d+): (.+);$")
 BB_RE = re.compile(r"^    (bb\d+)( \(cleanup\))?: \{$")
 
@@ -71,6 +72,18 @@ def parse(path):
             line = raw.rstrip("\n")
             if cur is None:
                 if line.startswith("const "):
+                    m1 = CONST1_RE.match(line)
+                    if m1:
+                        # one-line constant item: `const NAME: T = const VALUE;`
+                        c = Func(m1.group(1), [], m1.group(2), lineno)
+                        c.text.append(line)
+                        c.locals["_0"] = m1.group(2)
+                        b = Block("bb0", False)
+                        b.stmts.append("_0 = " + m1.group(3))
+                        b.term = "return"
+                        c.blocks["bb0"] = b
+                        funcs.append(c)
+                        continue
                     m = CONST_RE.match(line)
                     if m:
                         cur = Func(m.group(1), [], m.group(2), lineno)
